@@ -13,6 +13,8 @@ FAMILY_ARGS = {
     'admit': {'quick': [], 'thorough': []},
     'buffer': {'quick': ['-seed', '{seed}', '-n', '3000', '-exhaustive', '5', '-maxlen', '40'],
                'thorough': ['-seed', '{seed}', '-n', '60000', '-exhaustive', '7', '-maxlen', '300']},
+    'hist': {'quick': ['-seed', '{seed}', '-n', '700'],
+             'thorough': ['-seed', '{seed}', '-n', '12000']},
     'cycle': {'quick': ['-seed', '{seed}', '-n', '2000', '-exhaustive', '3', '-maxops', '40'],
               'thorough': ['-seed', '{seed}', '-n', '40000', '-exhaustive', '4', '-maxops', '200']},
 }
@@ -20,6 +22,14 @@ FAMILY_ARGS = {
 _cycle_rule = ('cycle family: every buffer of <=3 (quick) / <=4 (thorough) operations over 2 watchers x batchable x cost{0,1,2}, '
                'batch limits {0,0},{1,2},{2,1},{2,0}, every allowance 0..total+1 and no limiter, v1 and v2 (slots none/1/2), '
                'plus seeded random buffers up to 40/200 operations; each scenario = one real flush cycle + one drain cycle in virtual time; ')
+
+_hist_rule = ('hist family: seeded random timed API histories against the real Batcher of both generations under testing/synctest (virtual clock): '
+              'configurations (buffer 1..50, limiter or none, intervals incl. defaults, error-on-full, slot limits), 1-3 watchers with scripted callback durations '
+              '(instant .. MaxOperationTime-1ns / exactly / +1ns / never; optional re-enqueue or Pause() from the callback), scripts of Enqueue/Pause/Flush/Start/Stop/capacity changes, '
+              'hook-parked enqueuers around audit ticks, probes at write-off instants; every call, return, event, limiter call, callback and sampled getter is replayed through the Batcher machine '
+              '(trace acceptance) and through the property monitors; plus the corpus of minimised past failures; ')
+_hist_assumptions = ['log lines are written after the action they report; the driver accepts any placement of the action consistent with that',
+                     'traces whose candidate-state set exceeds the bound are counted as inconclusive (reported), not as mismatches']
 
 PROPS = {
     'C01': {
@@ -53,6 +63,14 @@ PROPS = {
         'rule': _cycle_rule + 'non-trivial = v2 with a slot limit and something released',
         'explanation': 'cycle-level slot theorems; machine-level invariant pending (C10b)',
         'assumptions': [],
+    },
+    'C03': {
+        'families': ['hist', 'cycle'],
+        'fields': {'hist': None, 'cycle': ['needs1', 'needsmid', 'needs2', 'needs3']},
+        'nontrivial': r'(tr=.*ev:batch)|(needs1=[1-9])',
+        'rule': _hist_rule + 'non-trivial = at least one batch was raised',
+        'explanation': 'accounting invariant over the Batcher machine (all label sequences), partial: exclusions are findings F3 (v1 after close) and F9 (audit with an Enqueue in flight); counterexamples proved and replayed through the hook',
+        'assumptions': _hist_assumptions,
     },
     'C05': {
         'families': ['cycle'],
